@@ -285,6 +285,66 @@ def derived_witness_type(ctx):
                             'litecoin segwit wallet: get_keys(number_of_keys=3) stores the third key with witness_type p2sh-segwit')
 
 
+@PROP.obligation('C09.restore-inputs', canaries=[
+    mut.replace_expr('wallets', 'Wallet.create', 'Mnemonic().to_seed(key, password)', 'Mnemonic().to_seed(key)', 'BIP39 passphrase dropped when a wallet is restored from a mnemonic'),
+])
+def restore_inputs(ctx):
+    """Wallet.create: every conversion of user key material into an HDKey (mnemonic sentence -> seed -> key; formatted key / BIP38 string
+    -> key) receives the password, the network and the witness type the caller gave: a wallet restored from `words + passphrase` must
+    be the wallet of that seed, not of the bare words."""
+    q = 'wallets:Wallet.create'
+    fn = ctx.repo.func(q)
+    n = 0
+    for a_ in ast.walk(fn):
+        if not (isinstance(a_, ast.Assign) and norm(a_.targets[0]) == 'key' and isinstance(a_.value, ast.Call)):
+            continue
+        f = norm(a_.value.func)
+        if not (f == 'HDKey' or f.startswith('HDKey.from_')):
+            continue
+        n += 1
+        params = set(x.id for x in ast.walk(a_.value) if isinstance(x, ast.Name))      # arguments written in the call itself
+        ctx.saw('line %d: key = %s(...) uses parameters %s' % (a_.lineno, f, sorted(params & {'password', 'network', 'witness_type'})))
+        for need, why in (('password', 'the BIP39 / BIP38 passphrase is ignored: the wallet of the bare mnemonic is created'),
+                          ('network', 'the key is created on the default network'), ('witness_type', 'the key gets the default witness type')):
+            ctx.require(need in params, q, 'the conversion `key = %s(...)` at line %d does not use the %s argument' % (f, a_.lineno, need), a_, why)
+    ctx.floor(n, 2, 'key conversions in Wallet.create')
+
+
+@PROP.obligation('C09.path-columns', canaries=[
+    mut.replace_expr('wallets', 'Wallet.keys_for_path', 'not account_id', 'account_id is None', 'account column not re-derived from an explicit path'),
+    mut.replace_expr('wallets', 'Wallet.keys_for_path', "int(fullpath[change_pos[0]].strip(\"'\"))", '0', 'change column not taken from the path'),
+])
+def path_columns(ctx):
+    """Wallet.keys_for_path, creation loop, evaluated on the explicit path m/84'/0'/3'/1/7 in a wallet whose default account is 0: every
+    key record created along the path is stored with account_id 3 and change 1 (the columns the next-index query filters on) and with
+    the path prefix of its own level."""
+    q = 'wallets:Wallet.keys_for_path'
+    fn = ctx.repo.func(q)
+    loops = [n for n in ast.walk(fn) if isinstance(n, ast.For) and norm(n.iter) == 'fullpath[n_items:]']
+    if len(loops) != 1:
+        ctx.undecided('keys_for_path: creation loop over the missing path levels not found')
+    full = ['m', "84'", "0'", "3'", '1', '7']
+    it = Interp(ctx.repo, 'wallets', self_cls='wallets:Wallet')
+    st = State(env={'self': S(SELF), 'fullpath': list(full), 'n_items': 3, 'account_id': 0, 'ck': S(('var', 'ck')), 'newpath': "m/84'/0'", 'name': None, 'parent_id': S(('var', 'pid')),
+                    'purpose': 84, 'encoding': 'bech32', 'witness_type': 'segwit', 'cosigner_id': None, 'network': 'bitcoin', 'change': 0, 'nkey': None})
+    st.heap[A(SELF, 'key_path')] = list(BIP44)
+    seen = []
+    it.obs_call = lambda name, base, args, kwargs, st_, node: seen.append({k: kwargs.get(k) for k in ('account_id', 'change', 'path')}) if name == 'from_key' else None
+    it.frames.append([])
+    try:
+        it.exec_stmt(loops[0], st)
+    except AnalysisError as e:
+        ctx.undecided('keys_for_path: creation loop not evaluable: %s' % str(e)[:100])
+    if len(seen) != 3:
+        ctx.undecided('keys_for_path: %d key records created for 3 missing levels' % len(seen))
+    for i, kw in enumerate(seen):
+        ctx.saw('level %d: account_id=%s change=%s path=%s' % (i + 3, show(term(kw['account_id'])), show(term(kw['change'])), show(term(kw['path']))))
+        ctx.require(kw['account_id'] == 3, q, 'the key at %s is stored with account_id %s (default account of the wallet) instead of 3' % ('/'.join(full[:4 + i]), show(term(kw['account_id']))), loops[0],
+                    "after key_for_path(\"m/84'/0'/3'/0/0\") new_key(account_id=3) keeps returning that same key")
+        ctx.require(kw['path'] == '/'.join(full[:4 + i]), q, 'the key at level %d is stored with path %s' % (i + 3, show(term(kw['path']))), loops[0])
+    ctx.require(seen[-1]['change'] == 1, q, 'the address key is stored with change %s instead of 1' % show(term(seen[-1]['change'])), loops[0], 'the next-index query of the change chain does not see it')
+
+
 COLS = {'wallet_id': 'wallet_id', 'purpose': 'purpose', 'account_id': 'account_id', 'change': 'change', 'parent_id': 'parent_id', 'path': 'path', 'key_type': 'key_type',
         'network_name': 'network', 'encoding': 'encoding', 'cosigner_id': 'cosigner_id', 'witness_type': 'witness_type', 'depth': 'k.depth', 'address': 'address',
         'address_index': 'address_index', 'public': 'k.public_byte', 'private': 'k.private_byte', 'compressed': 'k.compressed', 'is_private': 'k.is_private',
